@@ -5,7 +5,7 @@
    from Gen/HeapqIdx.v on every run. *)
 From Coq Require Import ZArith List Permutation Sorted.
 Import ListNotations.
-From Mds Require Import Heapq.HeapqModel Heapq.HeapqSpec Heapq.HeapqHist.
+From Mds Require Import Heapq.HeapqModel Heapq.HeapqSpec Heapq.HeapqHist Heapq.HeapqOrder.
 Local Open Scope Z_scope.
 
 (* Contents, for EVERY variant, every element type, every comparison function (no contract), every
@@ -38,3 +38,53 @@ Theorem C05_pop_returns_front : forall (T : Type) (v : variant) (q : queue T), e
   step T v q OPop = Ok (q', (r, m)) /\ step T v q OFront = Ok (q, (r, [])).
 Proof. exact pop_returns_front. Qed.
 Print Assumptions C05_pop_returns_front.
+
+(* heapq.Sort leaves its argument a sorted permutation of the input: every variant (so the pinned
+   code too: Sort never calls pushUp and only removes at the root), every comparison satisfying the
+   contract, every input list; no failure. *)
+Theorem C05_sort : forall (T : Type) (v : variant) (c : T -> T -> Z) (vs : list T), total_preorder T c ->
+  exists r, Sort T v c vs = Ok r /\ Permutation r vs /\ Sorted (fun a b => c a b <= 0) r.
+Proof. exact sort_sorted_permutation. Qed.
+Print Assumptions C05_sort.
+
+Example C05_sort_example : Sort Z pinned zcmp [5; 3; 9; 1; 1; 7; 2] = Ok [1; 1; 2; 3; 5; 7; 9] /\ total_preorder Z zcmp.
+Proof. split; [vm_compute; reflexivity|exact zcmp_total_preorder]. Qed.
+
+(* FULL STATEMENT (C05, order): for every history whose comparison functions satisfy the contract,
+   started from a valid heap, Front and Pop answer with an element minimal among those held (hence a
+   drain is non-decreasing):
+     forall ops q, inv T q -> hist T (fun _ o => op_wf T o) (min_answer T) v q ops.
+   It is FALSE of the pinned variant (C05_min_refuted_F1/_F2 below).  Proved here, for EVERY variant:
+   the same statement for histories that only ever sift down (HeapqSpec.down_only: Add only into an
+   empty queue, Remove only at the root or out of range; Set, Reorder, NewWithData, Clear, New, Pop,
+   Front, Peek, Len, IsEmpty, Each unrestricted) — the heap invariant [inv] is preserved by every
+   such step and the answers are minimal.  MISSING: the statement for arbitrary Add/Remove under the
+   repaired switches (pushUp with parent (i-1)/2 restores the heap; pop followed by pushUp restores
+   it) is not proved yet. *)
+Theorem C05_min_partial : forall (T : Type) (v : variant) (ops : list (op T)) (q : queue T), inv T q ->
+  hist T (fun q o => op_wf T o /\ down_only T q o) (min_answer T) v q ops.
+Proof. exact hist_min_down_only. Qed.
+Print Assumptions C05_min_partial.
+
+Example C05_min_partial_example :
+  pop_values Z (run Z pinned (New Z zcmp) [OSet [5; 3; 8; 1; 9; 2; 7]; OPop; OReorder (fun a b => zcmp b a); OPop; OFront])
+  = [1; 9; 8].
+Proof. vm_compute. reflexivity. Qed.
+
+(* The pinned switches refute the full statement.  F1 (only Adds and root Pops, so only pushUp's
+   parent index is involved): after the history the queue holds [15;13;18;18;19] and Pop answers 15
+   although 13 is held.  F2 (no Add at all: Set, one interior Remove, Pops): the queue holds
+   [4;3;7;6] and Pop answers 4 although 3 is held. *)
+Theorem C05_min_refuted_F1 : pop_not_minimal pinned f1_history 15 13.
+Proof. exact f1_refutes. Qed.
+Print Assumptions C05_min_refuted_F1.
+
+Theorem C05_min_refuted_F2 : pop_not_minimal pinned f2_history 4 3.
+Proof. exact f2_refutes. Qed.
+Print Assumptions C05_min_refuted_F2.
+
+(* ... and with both switches repaired the model answers the same histories correctly *)
+Example C05_refuted_histories_repaired :
+  pop_values Z (run Z repaired (New Z zcmp) (f1_history ++ [OPop])) = [6; 7; 8; 13] /\
+  pop_values Z (run Z repaired (New Z zcmp) (f2_history ++ [OPop])) = [5; 1; 2; 3].
+Proof. split; [exact f1_repaired_ok|exact f2_repaired_ok]. Qed.
